@@ -158,8 +158,7 @@ def bounded_explicit(ctx):
             ctx.case(('explicit', repr(clauses), N, repr(a), repr(b), repr(c), shape), nontrivial=any(clauses))
             bad = eval_library(clauses, N, a, b, c, seed, shape)
             if bad and bad[0] != 'unknown':
-                which = ''.join(x for x, y in zip('pvc', (a, b, c)) if not isinstance(y, str)) or 'none'
-                ctx.violation('Shuffle:explicit[{}]:{}'.format(which, bad[0]),
+                ctx.violation('Shuffle:explicit:{}'.format(bad[0]),
                               'Shuffle({} with {} variables, {}, {}, {}) seed {}: {}'.format(clauses, N, a, b, c, seed, bad[1]),
                               {'fn': 'checks.C09:replay_library',
                                'args': dict(clauses=clauses, nvars=N, flips=a, vperm=b, cperm=c, seed=seed, shape=shape)})
@@ -183,7 +182,7 @@ def bounded_explicit(ctx):
         ctx.case(('explicit-large', repr(clauses), N, repr(args), naming))
         bad = eval_library(clauses, N, args[0], args[1], args[2], i, 'list', naming)
         if bad and bad[0] != 'unknown':
-            ctx.violation('Shuffle:explicit[large]:{}'.format(bad[0]),
+            ctx.violation('Shuffle:explicit:{}'.format(bad[0]),
                           'Shuffle({} with {} variables ({}), {}) seed {}: {}'.format(clauses, N, naming, args, i, bad[1]),
                           {'fn': 'checks.C09:replay_library',
                            'args': dict(clauses=clauses, nvars=N, flips=args[0], vperm=args[1], cperm=args[2], seed=i, naming=naming)})
